@@ -41,6 +41,20 @@ type Options struct {
 	ExtraSetup func(e *Env, n *centrifuge.Node)
 	// Users is the number of distinct user ids connections are spread over (default 2).
 	Users int
+	// Inject, when set, closes connection Inject.Conn by Inject.Cause the first time
+	// that connection reaches yield point Inject.Point.
+	Inject *Injection
+}
+
+// Injection closes a connection at a yield point: the close is launched on another
+// goroutine and the goroutine at the yield point busy-waits (never sleeps) until the
+// close has flipped the connection's status, then carries on with its operation.
+type Injection struct {
+	Point string
+	Conn  int
+	Cause string // disc-client disc-node disc-transport write-error
+	fired atomic.Bool
+	Fired atomic.Bool // set once the close was observed to have started
 }
 
 // Op is one planned operation of a connection.
@@ -278,6 +292,12 @@ func New(c *kit.Case, opt Options) *Env {
 				cc.Plan[i].Async = 0
 			}
 		}
+		if opt.Inject != nil && opt.Inject.Conn == i {
+			cc.calm = true
+			for k := range cc.Plan {
+				cc.Plan[k].Async = 0
+			}
+		}
 		e.Conns = append(e.Conns, cc)
 	}
 	return e
@@ -288,7 +308,17 @@ func (e *Env) hook(point string, cl *centrifuge.Client, ch string) {
 		return
 	}
 	cc := e.connOf(cl)
-	if cc == nil || cc.calm {
+	if cc == nil {
+		return
+	}
+	if inj := e.Opt.Inject; inj != nil && inj.Point == point && inj.Conn == cc.Idx && inj.fired.CompareAndSwap(false, true) {
+		go e.do(cc, Op{Kind: inj.Cause})
+		if kit.SpinUntil(func() bool { return centrifuge.VerifClient(cl).Status == 3 }, 200000) {
+			inj.Fired.Store(true)
+		}
+		return
+	}
+	if cc.calm {
 		return
 	}
 	positioned := e.IsPositioned(ch)
@@ -376,6 +406,9 @@ func (e *Env) do(cc *CConn, op Op) {
 		_ = e.Node.Disconnect(cc.User, centrifuge.WithDisconnectClient(cc.Conn.Client.ID()))
 	case "disc-transport":
 		_ = cc.Conn.CloseFn()
+	case "write-error":
+		cc.Conn.T.FailFromNow()
+		_ = cc.Conn.Client.Send([]byte(`{"x":1}`))
 	}
 }
 
